@@ -194,7 +194,9 @@ class RawStructDef(TypeDef, ParsableDef):
 
         # Ensure that functions don't override struct fields
         if overridden := used_field_names.intersection(used_func_names.keys()):
-            x = overridden.pop()
+            # Report the first clash in source order: popping from the set would make
+            # the message depend on the hash seed
+            x = next(name for name in used_func_names if name in overridden)
             raise GuppyError(DuplicateFieldError(used_func_names[x], self.name, x))
 
         return ParsedStructDef(self.id, self.name, cls_def, params, fields)
